@@ -104,6 +104,26 @@ theorem numeral_accepted {bits scale : Nat} (h : Side bits scale) (sign ip f : L
   · exact Or.inl ⟨hf, by rw [if_pos hf]⟩
   · exact Or.inr ⟨hf, by rw [if_neg hf]⟩
 
+/-- **parse_never_panics**: none of the `expect` / `unreachable!` / indexing panics of `from_str` can
+fire; every text is either accepted or rejected with an error. -/
+theorem parse_never_panics {bits scale : Nat} (h : Side bits scale) (s : List Nat)
+    (hlen : s.length < 2 ^ 32) : fromStr bits scale s ≠ .panic :=
+  fromStr_no_panic bits scale h.1 h.2.1 s hlen
+
+/-- **rejects_iff**: `from_str(s)` is an `Err` exactly when `s` is not an in-range numeral. -/
+theorem rejects_iff_not_numeral {bits scale : Nat} (h : Side bits scale) (s : List Nat)
+    (hlen : s.length < 2 ^ 32) :
+    (∃ e, fromStr bits scale s = .err e) ↔ ¬ ∃ v, Denotes scale s v ∧ InRange bits v := by
+  constructor
+  · rintro ⟨e, he⟩ ⟨v, hv⟩
+    rw [(accepts_iff_numeral_in_range h s v hlen).mpr hv] at he
+    cases he
+  · intro hn
+    cases hr : fromStr bits scale s with
+    | ok v => exact absurd ⟨v, (accepts_iff_numeral_in_range h s v hlen).mp hr⟩ hn
+    | err e => exact ⟨e, rfl⟩
+    | panic => exact absurd hr (parse_never_panics h s hlen)
+
 /-! ## printing then parsing is the identity -/
 
 /-- the printed text of any value is a numeral denoting exactly that value -/
